@@ -175,8 +175,95 @@ async fn leader_with_snapshot(dir: &std::path::Path) -> (Node, Served, u64, u64,
     (leader, on_leader, snapshot.index, snapshot.term, bytes)
 }
 
+
+/// C04 across files (s04_4): the snapshot catalogue under a process death while a snapshot is completed. Real RaftIndexManager +
+/// RaftSnapshotManager on a temp directory; `n` snapshots are built and completed. The disk image of a kill between the removal
+/// of the outdated snapshot files and the rewrite of the catalogue = the index file as it was before the last CompleteSnapshot
+/// + the snapshot files as they are after it. On that image the last catalogued snapshot must exist and be readable.
+async fn snapshot_catalogue_crash_image(n: u64) -> Result<(), String> {
+    use crate::raft::filestore::log::SnapshotRange;
+    use crate::raft::filestore::model::{SnapshotHeaderDto, SnapshotRecordDto};
+    use crate::raft::filestore::raftsnapshot::{RaftSnapshotRequest, RaftSnapshotResponse, SnapshotReader, SnapshotWriterRequest};
+    let live = tempfile::tempdir().unwrap();
+    let image = tempfile::tempdir().unwrap();
+    let base = Arc::new(live.path().to_string_lossy().into_owned());
+    let index = RaftIndexManager::new(base.clone()).start();
+    let snap = RaftSnapshotManager::new(base.clone(), Some(index.clone())).start();
+    tokio::time::sleep(Duration::from_millis(100)).await;
+    let catalogue = |idx: Addr<RaftIndexManager>| async move {
+        match idx.send(RaftIndexRequest::LoadIndexInfo).await {
+            Ok(Ok(RaftIndexResponse::RaftIndexInfo { raft_index, .. })) => raft_index.snapshots,
+            _ => vec![],
+        }
+    };
+    for k in 1..=n {
+        let header = SnapshotHeaderDto { last_index: k * 10, last_term: 1, member: vec![1], member_after_consensus: vec![], node_addrs: Default::default() };
+        let (writer, id) = match snap.send(RaftSnapshotRequest::NewSnapshot(header)).await {
+            Ok(Ok(RaftSnapshotResponse::NewSnapshot(w, id, _))) => (w, id),
+            _ => return Err("MODEL: NewSnapshot refused".to_string()),
+        };
+        let rec = SnapshotRecordDto { tree: Arc::new("t".to_owned()), key: k.to_be_bytes().to_vec(), value: vec![7u8; 16], op_type: 0 };
+        writer.send(SnapshotWriterRequest::Record(rec)).await.map_err(|e| format!("MODEL: {}", e))?.map_err(|e| format!("MODEL: {}", e))?;
+        for _ in 0..2 {
+            writer.send(SnapshotWriterRequest::Flush).await.map_err(|e| format!("MODEL: {}", e))?.map_err(|e| format!("MODEL: {}", e))?;
+        }
+        if k == n {
+            // everything queued so far has reached the index file once the index actor answers
+            let _ = catalogue(index.clone()).await;
+            for item in std::fs::read_dir(live.path()).unwrap() {
+                let item = item.unwrap();
+                let name = item.file_name().to_string_lossy().into_owned();
+                if item.path().is_file() && !name.starts_with("snapshot_") && name != "db_lock" {
+                    std::fs::copy(item.path(), image.path().join(item.file_name())).unwrap();
+                }
+            }
+        }
+        snap.send(RaftSnapshotRequest::CompleteSnapshot(SnapshotRange { id, end_index: k * 10 }))
+            .await
+            .map_err(|e| format!("MODEL: {}", e))?
+            .map_err(|e| format!("CompleteSnapshot fails: {}", e))?;
+    }
+    let after = catalogue(index.clone()).await;
+    if after.last().map(|e| e.end_index) != Some(n * 10) {
+        return Err(format!("after {} completed snapshots the catalogue is {:?}", n, after));
+    }
+    let mut left = vec![];
+    for item in std::fs::read_dir(live.path()).unwrap() {
+        let item = item.unwrap();
+        let name = item.file_name().to_string_lossy().into_owned();
+        if name.starts_with("snapshot_") {
+            std::fs::copy(item.path(), image.path().join(item.file_name())).unwrap();
+            left.push(name);
+        }
+    }
+    left.sort();
+    // a new process on the crash image
+    let index2 = RaftIndexManager::new(Arc::new(image.path().to_string_lossy().into_owned())).start();
+    let cat = catalogue(index2).await;
+    if let Some(last) = cat.last() {
+        let path = image.path().join(format!("snapshot_{}", last.id));
+        if !path.exists() {
+            return Err(format!(
+                "process death between the removal of outdated snapshot files and the catalogue rewrite of snapshot {}: the on-disk catalogue {:?} ends with snapshot {} whose file is gone (snapshot files left: {:?})",
+                n, cat.iter().map(|e| e.id).collect::<Vec<_>>(), last.id, left
+            ));
+        }
+        let mut reader = SnapshotReader::init(&path.to_string_lossy()).await.map_err(|e| format!("the last catalogued snapshot does not open: {}", e))?;
+        if reader.get_header().last_index != last.end_index {
+            return Err(format!("the last catalogued snapshot's header names index {}, the catalogue {}", reader.get_header().last_index, last.end_index));
+        }
+        reader.read_record().await.map_err(|e| format!("the last catalogued snapshot is not readable: {}", e))?;
+    } else if n > 1 {
+        return Err("MODEL: the crash image has an empty catalogue".to_string());
+    }
+    Ok(())
+}
+
 async fn scenario(name: &str) -> Result<(), String> {
     use tokio::io::AsyncWriteExt;
+    if let Some(n) = name.strip_prefix("snapshot_catalogue_crash_image_") {
+        return snapshot_catalogue_crash_image(n.parse().unwrap_or(3)).await;
+    }
     let d1 = tempfile::tempdir().unwrap();
     let d2 = tempfile::tempdir().unwrap();
     let d3 = tempfile::tempdir().unwrap();
